@@ -54,6 +54,12 @@ Section Tab.
     rewrite !sum_upd in K by assumption. lia.
   Qed.
 
+  Lemma sum_ge_get f t l : f d = 0 -> (forall x, 0 <= f x) -> f (get t l) <= sum f l.
+  Proof.
+    intros Hd H. pose proof (sum_nonneg f (upd t d l) H) as K.
+    rewrite sum_upd in K by assumption. lia.
+  Qed.
+
   Lemma sum_ext f g l : (forall x, f x = g x) -> sum f l = sum g l.
   Proof. intros H; induction l as [|x l IH]; cbn [sum]; [lia|]. rewrite H, IH. reflexivity. Qed.
 
